@@ -128,6 +128,34 @@ pub fn phases(thorough: bool, _seed: u64) -> Vec<Phase> {
         bounds: json!({"operations": "constrained_spline (>=3 strictly increasing knots), linear (in order, reversed, 2 knots), evaluate / derivative / integral of the results",
             "inputs": "every increasing subset of size 3..5 (6 thorough) of {-MAX,-1e300,-1,0,5e-324,1,1e300,MAX} x ordinates in {0,-0.0,1e300,-MAX,5e-324}"}),
     });
+    v.push(Phase {
+        name: "census-constructions-every-size",
+        units: if thorough { 600 } else { 300 },
+        split: 0,
+        body: Box::new(move |unit, cx| {
+            let n = unit + 2;
+            let pat = cx.choose(3);
+            let knots: Vec<Knot> = (0..n).map(|i| Knot::new(i as f64 * 0.5 - 3.0, match pat { 0 => (i * i) as f64, 1 => if i % 2 == 0 { 1.0 } else { -1.0 }, _ => ((i * 7919) % 13) as f64 })).collect();
+            cx.nontrivial();
+            cx.evals(3);
+            if cx.sampling() {
+                cx.sample(json!({"knots": n, "pattern": pat}));
+            }
+            np("constrained_spline / linear", json!({"knots": n, "x": "i/2-3", "y_pattern": pat}), || {
+                let l = linear(&knots);
+                let mut acc = l.evaluate(0.25) + l.integral(knots[0]).evaluate(1.0);
+                if n >= 3 {
+                    let s = constrained_spline(&knots);
+                    acc += s.evaluate(0.25) + s.derivative().evaluate(1.0) + (&s.integral(knots[0])).evaluate(2.0);
+                    let mut ev = PiecewiseEvaluator::new(&s.segments);
+                    acc += ev.evaluate(1e9) + ev.evaluate(-1e9) + ev.evaluate(f64::NAN) + s.evaluate_v(vec![-1.0, 0.0, 1e9]).sum::<f64>();
+                }
+                acc
+            })
+        }),
+        classes: vec![],
+        bounds: json!({"operations": "linear (n >= 2), constrained_spline (n >= 3), evaluate / derivative / integral / PiecewiseEvaluator / evaluate_v of the result", "inputs": "every number of knots from 2 to 301 (601 thorough) x 3 ordinate patterns"}),
+    });
     // ---- piecewise operations with nasty non-NaN ends
     let sh = Arc::new(shapes(&nasty_values(), if thorough { 4 } else { 3 }));
     let nsh = sh.len();
